@@ -72,5 +72,5 @@ def run_suite(name, gen, n, seed_names=(), unit=None):
     return {
         "suite": name, "cases": len(cases), "distinct": distinct, "agree": ok, "disagree": len(bad),
         "by_function": dict(byfn), "generator_restarts": len(gen_errors), "generator_errors": gen_errors[:2], "impl_s": round(t_impl, 2), "total_s": round(time.time() - t0, 2),
-        "mismatches": bad[:20], "samples": [{"fn": c.fn, "info": c.info, "impl_out": c.expect} for c in cases[:3]],
+        "mismatches": bad[:20], "mismatches_all": bad[:400], "samples": [{"fn": c.fn, "info": c.info, "impl_out": c.expect} for c in cases[:3]],
     }
